@@ -31,7 +31,7 @@ def cases(tier, seed):
     # every (engine, port, depth, buffered, profile) combination, shuffled per seed and cycled: the quick tier sees a
     # different 240 of the 320 each seed, the thorough tier sees each five times with different rates and lengths
     combos = [(e, p, d, b, pr) for e in ("reader", "writer") for p in ("native", "native", "native", "axi")
-              for d in (1, 2, 4, 8, 16) for b in (False, True) for pr in PROFILES]
+              for d in (1, 2, 3, 4, 6, 8, 12, 16, 24) for b in (False, True) for pr in PROFILES]
     random.Random("C12/combos/%d" % seed).shuffle(combos)
     for k in range(n):
         r = random.Random("C12/%d/%s/%d" % (seed, tier, k))
@@ -53,7 +53,7 @@ def cases(tier, seed):
     # CSR-driven mode (with_csr=True, the form LiteX SoCs use): the engine generates base .. base+length-1 itself
     for k in range(24 if tier == "quick" else 160):
         r = random.Random("C12/%d/%s/csr/%d" % (seed, tier, k))
-        c = dict(engine=["reader", "writer"][k % 2], port="native", csr=True, fifo_depth=[1, 2, 4, 16][(k // 2) % 4], buffered=bool((k // 8) % 2),
+        c = dict(engine=["reader", "writer"][k % 2], port="native", csr=True, fifo_depth=[1, 2, 4, 16, 3, 12][(k // 2) % 6], buffered=bool((k // 8) % 2),
                  profile=PROFILES[(k // 2) % 4], dw=r.choice([32, 64]), length_words=r.choice([1, 2, 7, 16, 33, 64]),
                  base_words=r.randrange(0, 1 << 13), loop=bool((k // 4) % 2), cmd_ready_prob=r.choice([1.0, 0.7, 0.3]),
                  extra_lat=r.choice([(0, 0), (0, 10), (0, 40)]), long_stall=r.choice([0, 0, 0.01]), src_valid=r.choice([1.0, 0.8, 0.3]),
@@ -67,7 +67,7 @@ def cases(tier, seed):
     # the same engines on a port of the real crossbar + controller + reference DRAM
     for k in range(12 if tier == "quick" else 96):
         r = random.Random("C12/%d/%s/core/%d" % (seed, tier, k))
-        c = dict(engine=["reader", "writer"][k % 2], port="core", fifo_depth=[1, 2, 4, 8, 16][(k // 2) % 5], buffered=bool((k // 4) % 2),
+        c = dict(engine=["reader", "writer"][k % 2], port="core", fifo_depth=[1, 2, 4, 8, 16, 3, 6, 12][(k // 2) % 8], buffered=bool((k // 4) % 2),
                  profile=PROFILES[(k // 2) % 4 if k % 3 else r.randrange(4)], nwords=r.randint(100, 220), cmd_ready_prob=1.0,
                  extra_lat=(0, 0), long_stall=0, src_valid=r.choice([1.0, 0.8, 0.3]), dw=r.choice([32, 64]),
                  cmd_buffer_depth=r.choice([4, 8, 16]), refresh=(k % 6 != 5), seed="C12/%d/core/%d" % (seed, k))
